@@ -158,9 +158,11 @@ func normKey(t protocol.KeyType, bits int) keyID {
 	}
 }
 
-func (s *SimStore) AddOwnerKey(t protocol.KeyType, bits int, e *KeyEntry) { s.owner[normKey(t, bits)] = e }
-func (s *SimStore) AddMfgKey(t protocol.KeyType, bits int, e *KeyEntry)   { s.mfg[normKey(t, bits)] = e }
-func (s *SimStore) ClearOwnerKeys()                                       { s.owner = map[keyID]*KeyEntry{} }
+func (s *SimStore) AddOwnerKey(t protocol.KeyType, bits int, e *KeyEntry) {
+	s.owner[normKey(t, bits)] = e
+}
+func (s *SimStore) AddMfgKey(t protocol.KeyType, bits int, e *KeyEntry) { s.mfg[normKey(t, bits)] = e }
+func (s *SimStore) ClearOwnerKeys()                                     { s.owner = map[keyID]*KeyEntry{} }
 
 // DropSessions models a restart that loses volatile session state.
 func (s *SimStore) DropSessions() {
